@@ -159,6 +159,12 @@ def member_level(ctx, spec, name, rep, objs, which, rng, payload, encs):
         twin = enc.state_from_json(enc.state_to_json(m)) if which == 'state' else enc.observation_from_json(enc.state_to_json(m))
         ok2, d2 = call_real(rep.convert, twin)
         ctx.hit('equal_members')
+        # "equal representations" as a user compares arrays: element-wise (a NaN entry is not even equal to itself)
+        if ok2 and not all(np.array_equal(d[k_], d2[k_]) for k_ in d):
+            bad_keys = [k_ for k_ in d if not np.array_equal(d[k_], d2[k_])]
+            ctx.violation('faithful', f'{name}.equal_members_differ',
+                          f'{spec} {name} {which}: equal members have representations that do not compare equal element-wise under '
+                          f'{bad_keys} ({[d[k_].tolist() for k_ in bad_keys][:1]})', 'member_case', payload)
         if ok2 and flat(d2) != base:
             ctx.violation('faithful', f'{name}.equal_members_differ', f'{spec} {name} {which}: equal members have different representations',
                           'member_case', payload)
